@@ -254,3 +254,25 @@ func RunPrefixThenGenerate(s Schedule, prefix, inject []Event, r *rand.Rand, mor
 	}
 	return evs
 }
+
+// RunGeneratedCore executes a generated schedule with the handler-level case sink on.
+func RunGeneratedCore(s Schedule, r *rand.Rand, dir string, sink CoreSink) *CoreStats {
+	opt := s.Opt
+	opt.Dir = dir
+	c, _, err := NewCluster(opt)
+	if c != nil {
+		defer c.Close()
+	}
+	if err != nil {
+		return nil
+	}
+	c.Core = sink
+	g := NewGen(r, c, Profiles[s.Profile])
+	for i := 0; i < s.Events; i++ {
+		rec := c.Apply(g.Next())
+		if rec.Panic != "" {
+			break
+		}
+	}
+	return c.CoreStats
+}
